@@ -17,7 +17,10 @@ fn versions(lang: Lang) -> Vec<(&'static str, Vec<(&'static str, String)>)> {
     let unit_user = "#[typeshare]\npub struct UsesUnit { pub nothing: (), pub list: Vec<()> }\n";
     let no_unit = "#[typeshare]\npub struct UsesUnit { pub nothing: u32, pub list: Vec<u8> }\n";
     let _ = lang;
-    // order matters: the quick tier takes the first five
+    // outputs well beyond common buffer sizes (8 KiB, 64 KiB): 700 structs
+    let large: String = (0..700).map(|i| format!("#[typeshare]\npub struct Big{i:03} {{ pub first_field_of_the_struct: u32, pub second_field_of_the_struct: Option<String>, pub third: Vec<Big000> }}\n")).collect();
+    let large_changed = large.replace("pub struct Big699 { pub first_field_of_the_struct: u32", "pub struct Big699 { pub first_field_of_the_struct: u16");
+    // order matters: the quick tier takes the first six
     vec![
         ("V0-base", vec![("ws/x/src/lib.rs", format!("{a}\n{b}"))]),
         ("V1-type-added", vec![("ws/x/src/lib.rs", format!("{a}\n{b}\n{c}"))]),
@@ -25,10 +28,13 @@ fn versions(lang: Lang) -> Vec<(&'static str, Vec<(&'static str, String)>)> {
         // only the alphabetically later crate differs from V3 (the earlier crate's file is already up to date)
         ("V7-later-crate-changed", vec![("ws/x/src/lib.rs", a.to_string()), ("ws/y/src/lib.rs", format!("use x::Alpha;\n{b_renamed}\n{unit_user}"))]),
         ("V4-uses-unit", vec![("ws/x/src/lib.rs", format!("{a}\n{unit_user}"))]),
+        ("V9-large-output", vec![("ws/x/src/lib.rs", format!("{a}\n{large}"))]),
         ("V2-renamed-and-changed", vec![("ws/x/src/lib.rs", format!("{a}\n{b_renamed}"))]),
         ("V5-unit-removed", vec![("ws/x/src/lib.rs", format!("{a}\n{no_unit}"))]),
         // only the earlier crate differs from V3
         ("V8-earlier-crate-changed", vec![("ws/x/src/lib.rs", format!("{a}\n{c}")), ("ws/y/src/lib.rs", format!("use x::Alpha;\n{b}"))]),
+        // differs from V9 only near the end of a large output
+        ("V10-large-output-tail-changed", vec![("ws/x/src/lib.rs", format!("{a}\n{large_changed}"))]),
         ("V6-nothing-annotated", vec![("ws/x/src/lib.rs", "pub struct Plain { pub a: u32 }\n".to_string())]),
     ]
 }
@@ -196,9 +202,9 @@ pub fn run(args: &[String]) -> i32 {
     }
     let thorough = rep.thorough();
     let graphs: Vec<(Lang, bool, usize)> = if thorough {
-        ALL_LANGS.iter().flat_map(|l| [(*l, false, 9), (*l, true, 9)]).collect()
+        ALL_LANGS.iter().flat_map(|l| [(*l, false, 11), (*l, true, 11)]).collect()
     } else {
-        vec![(Lang::Swift, true, 5), (Lang::Swift, false, 5), (Lang::TypeScript, true, 5), (Lang::TypeScript, false, 5), (Lang::Kotlin, true, 5)]
+        vec![(Lang::Swift, true, 6), (Lang::Swift, false, 6), (Lang::TypeScript, true, 6), (Lang::TypeScript, false, 6), (Lang::Kotlin, true, 6)]
     };
     let results = par_map(&graphs, report::threads(), |(l, m, n)| explore_graph(*l, *m, *n, 400));
     let mut states = 0;
